@@ -270,12 +270,14 @@ class C07(Prop):
 
             class Srv(MessageSession):
                 cost_decay_per_sec = 0
+                if case.get('limits') == 'hard0':
+                    cost_hard_limit = 0
 
                 async def handle_message(self, message):
                     got.append([list(message[0]), len(message[1])])
 
             async def main():
-                proto, ft, s = sessions.attach(Srv, 'server', case['transport'])
+                proto, ft, s = sessions.attach(Srv, 'client' if case.get('limits') == 'client' else 'server', case['transport'])
                 f = framing.BitcoinFramer()
                 stream = b''
                 for m in case['msgs']:
@@ -343,7 +345,10 @@ class C07(Prop):
         for _ in range(n):
             msgs = [{'cmd': list(rng.choice([b'ping', b'verack', b'tx', b'a' * 12, b'v\xe5rsion', b'\xfftx', b'inv\x80', b'\xc3'])), 'payload': list(bytes(rng.randrange(256) for _ in range(rng.choice([0, 1, 5, 40])))),
                      'fault': rng.choice(['none', 'none', 'none', 'sum', 'sum', 'magic', 'size'])} for _ in range(rng.randrange(1, 6))]
-            case = {'session': True, 'msgs': msgs, 'chunk': rng.choice([1, 7, 24, 1000]), 'transport': rng.choice(['rs', 'us'])}
+            # 'unlimited': a session whose cost limits are switched off (cost_hard_limit = 0, as on outgoing connections) or that
+            # IS an outgoing connection - framing errors are counted and charged all the same
+            case = {'session': True, 'msgs': msgs, 'chunk': rng.choice([1, 7, 24, 1000]), 'transport': rng.choice(['rs', 'us']),
+                    'limits': rng.choice(['default', 'default', 'hard0', 'client'])}
             obs = self.session_scenario(case)
             ctx['extra_evals'] += 1
             cl = self.session_oracle(case, obs)
